@@ -565,7 +565,7 @@ func main() {
 	fmt.Fprintln(&out, "(* calls in source order (deferred ones flagged) of selected functions *)")
 	fmt.Fprintln(&out, "Definition order_census : list (string * list callsite) := [")
 	ordFns := []string{"dispatch.Call", "dispatch.Notify", "dispatch.handleCancel", "transport.Close",
-		"transport.receiveFramesLoop", "Connection.connect", "Connection.doReconnect",
+		"transport.closeWithErr", "transport.receiveFramesLoop", "Connection.connect", "Connection.doReconnect",
 		"Connection.DoCommand", "receiveHandler.handleReceiveDispatch", "callRequest.Reply",
 		"callCompressedRequest.Reply", "callRequest.Serve", "framedMsgpackEncoder.writerLoop",
 		"rpcResponseMessage.DecodeMessage", "connTransport.Dial", "connTransport.Finalize",
@@ -654,6 +654,69 @@ func main() {
 			})
 		}
 		fmt.Fprintf(&out, "Definition result_chan_capacity : option Z := %s.\n", capv)
+	}
+	// task registration key: the first element of the task{...} literal in handleReceiveDispatch, and whether a
+	// per-notification counter is decremented under a MethodNotify test
+	{
+		key := ""
+		counter := false
+		if fd, ok := fm["receiveHandler.handleReceiveDispatch"]; ok {
+			ast.Inspect(fd.Body, func(n ast.Node) bool {
+				switch x := n.(type) {
+				case *ast.CompositeLit:
+					if id, ok := x.Type.(*ast.Ident); ok && id.Name == "task" && len(x.Elts) >= 1 && key == "" {
+						key = exprString(x.Elts[0])
+					}
+				case *ast.IfStmt:
+					if strings.Contains(exprString(x.Cond), "MethodNotify") {
+						ast.Inspect(x.Body, func(m ast.Node) bool {
+							if ids, ok := m.(*ast.IncDecStmt); ok && ids.Tok == token.DEC {
+								counter = true
+							}
+							return true
+						})
+					}
+				}
+				return true
+			})
+		} else {
+			missing = append(missing, "receiveHandler.handleReceiveDispatch")
+		}
+		fmt.Fprintf(&out, "Definition task_key_expr : string := %s.\n", coqString(key))
+		fmt.Fprintf(&out, "Definition notify_key_counter : bool := %v.\n", counter)
+	}
+	// what transport.Close / closeWithErr do inside the once, in order: assignments to t.stopErr and close(t.stopCh)
+	{
+		var seq []string
+		for _, fn := range []string{"transport.Close", "transport.closeWithErr"} {
+			if fd, ok := fm[fn]; ok {
+				ast.Inspect(fd.Body, func(n ast.Node) bool {
+					switch x := n.(type) {
+					case *ast.AssignStmt:
+						if len(x.Lhs) == 1 && exprString(x.Lhs[0]) == "t.stopErr" {
+							seq = append(seq, coqString("stopErr="+exprString(x.Rhs[0])))
+						}
+					case *ast.CallExpr:
+						if id, ok := x.Fun.(*ast.Ident); ok && id.Name == "close" && len(x.Args) == 1 {
+							seq = append(seq, coqString("close:"+exprString(x.Args[0])))
+						}
+					}
+					return true
+				})
+			}
+		}
+		fmt.Fprintf(&out, "Definition close_once_sequence : list string := [%s].\n", strings.Join(seq, "; "))
+		// does the receive loop assign t.stopErr outside the once?
+		loopAssign := false
+		if fd, ok := fm["transport.receiveFramesLoop"]; ok {
+			ast.Inspect(fd.Body, func(n ast.Node) bool {
+				if x, ok := n.(*ast.AssignStmt); ok && len(x.Lhs) == 1 && exprString(x.Lhs[0]) == "t.stopErr" {
+					loopAssign = true
+				}
+				return true
+			})
+		}
+		fmt.Fprintf(&out, "Definition loop_assigns_stop_err : bool := %v.\n", loopAssign)
 	}
 	fmt.Fprintln(&out)
 	var ms []string
